@@ -746,6 +746,9 @@ class Sandbox:
     def _stop_mocking(self, context: SandboxContext):
         """ Turn off any patches, store output """
         self._stop_patches()
+        if not self._current_stdout:
+            # The time ran out before the execution began to capture anything
+            return
         current_stdout = self._current_stdout.pop()
         try:
             captured = current_stdout.getvalue()
